@@ -244,37 +244,59 @@ Fixpoint dtree_of (codes : coding) (depth : Z) (off : N) (t : tree) : dtree :=
             (on_list (fun o k => [dtree_of codes (depth + 1) o k]) (tree_size codes) (kids_off codes off t) kids)
   end.
 
-(* ---- well-formedness ---- *)
-(* every DW_AT_sibling value fits its form *)
-Fixpoint sib_fits (codes : coding) (off : N) (t : tree) : Prop :=
-  match t with
-  | Node tag flag items kids =>
-      Forall (fun it => match it with
-                        | ISib w => off + tree_size codes t < 2 ^ (8 * N.of_nat (sib_len w))
-                        | IAttr _ => True end) items /\
-      (fix go (o : N) (l : list tree) : Prop :=
-         match l with [] => True | k :: r => sib_fits codes o k /\ go (o + tree_size codes k) r end)
-        (kids_off codes off t) kids
-  end.
-Definition sibs_fit (codes : coding) : N -> list tree -> Prop :=
-  fix go (o : N) (l : list tree) : Prop :=
-    match l with [] => True | k :: r => sib_fits codes o k /\ go (o + tree_size codes k) r end.
+(* what reading one entry after the other reports: the entries in preorder and, after the children of
+   every entry whose abbreviation says DW_CHILDREN_yes, the null entry ending the list (reported at
+   the depth of the children); trailing padding is a run of null entries, each one level further up *)
+Definition null_at (off : N) (depth : Z) : die := mkDie off depth 0 false [].
 
-(* attributes are DWARF attributes under the unit's encoding; tags and codes are writable *)
-Fixpoint tree_ok (codes : coding) (e : enc) (t : tree) : Prop :=
+Fixpoint seq_tree (codes : coding) (depth : Z) (off : N) (t : tree) : list die :=
   match t with
   | Node tag flag items kids =>
-      abbrev_ok (t_abbrev codes t) /\
-      Forall (fun it => match it with IAttr a => attr_ok e a | ISib _ => True end) items /\
-      (fix go (l : list tree) : Prop := match l with [] => True | k :: r => tree_ok codes e k /\ go r end) kids
+      root_die codes off depth t ::
+      (if has_children t
+       then on_list (seq_tree codes (depth + 1)) (tree_size codes) (kids_off codes off t) kids ++
+            [null_at (off + tree_size codes t - 1) (depth + 1)]
+       else [])
   end.
-Definition forest_ok (codes : coding) (e : enc) : list tree -> Prop :=
-  fix go (l : list tree) : Prop := match l with [] => True | k :: r => tree_ok codes e k /\ go r end.
+
+Fixpoint pad_nulls (off : N) (depth : Z) (n : nat) : list die :=
+  match n with
+  | O => []
+  | S k => null_at off depth :: pad_nulls (off + 1) (depth - 1) k
+  end.
+
+Definition forest_size (codes : coding) (f : list tree) : N := sumN (map (tree_size codes) f).
+
+Definition raw_seq (codes : coding) (off : N) (f : list tree) (pad : nat) : list die :=
+  on_list (seq_tree codes 0) (tree_size codes) off f ++ pad_nulls (off + forest_size codes f) 0 pad.
 
 (* all entries of a forest *)
 Fixpoint nodes (t : tree) : list tree :=
   match t with Node _ _ _ kids => t :: flat_map nodes kids end.
 Definition forest_nodes (f : list tree) : list tree := flat_map nodes f.
+
+(* ---- well-formedness ---- *)
+(* attributes are DWARF attributes under the unit's encoding; tags and codes are writable *)
+Definition node_ok (codes : coding) (e : enc) (t : tree) : Prop :=
+  abbrev_ok (t_abbrev codes t) /\
+  Forall (fun it => match it with IAttr a => attr_ok e a | ISib _ => True end) (t_items t).
+Definition forest_ok (codes : coding) (e : enc) (f : list tree) : Prop :=
+  Forall (node_ok codes e) (forest_nodes f).
+
+(* every entry with its unit offset *)
+Fixpoint placed (codes : coding) (off : N) (t : tree) : list (N * tree) :=
+  match t with
+  | Node tag flag items kids =>
+      (off, t) :: on_list (placed codes) (tree_size codes) (kids_off codes off t) kids
+  end.
+
+(* every DW_AT_sibling value fits its form *)
+Definition node_fits (codes : coding) (p : N * tree) : Prop :=
+  Forall (fun it => match it with
+                    | ISib w => fst p + tree_size codes (snd p) < 2 ^ (8 * N.of_nat (sib_len w))
+                    | IAttr _ => True end) (t_items (snd p)).
+Definition sibs_fit (codes : coding) (off : N) (f : list tree) : Prop :=
+  Forall (node_fits codes) (on_list (placed codes) (tree_size codes) off f).
 
 (* the assignment gives different codes to different abbreviations of the forest *)
 Definition codes_injective (codes : coding) (f : list tree) : Prop :=
